@@ -39,7 +39,7 @@ def cases(draw):
         # shape-map shapes (they may consist of incoming constraints only, or of none)
         from . import c10
         target = {"mode": "sm", "with_all": draw(st.booleans()),
-                  "items": [{"sel": draw(c10.selector(g)), "label": "<http://sh.org/S%d>" % i,
+                  "items": [{"sel": draw(c10.selector(g)), "label": draw(st.sampled_from(["<http://sh.org/S%d>", "<http://sh.org/S%d>", "sho:S%d", "ex:S%d"])) % i,
                              "styles": draw(st.lists(st.integers(0, 1), min_size=4, max_size=4))} for i in range(draw(st.integers(1, 3)))]}
         cfg["inverse_paths"] = draw(st.sampled_from([True, True, False]))
         cfg.pop("namespaces_dict", None)
@@ -217,6 +217,12 @@ def check(case):
     for c, lab in label_of.items():
         if lab in hshapes and hshapes[lab] != [c] and len(set(label_of.values())) == len(label_of):
             viol.append("sh:targetClass of %s is %s, expected %s" % (lab, hshapes[lab], c))
+    if sm is not None:
+        # a shape-map label (written <IRI> or as a prefixed name) is not a class: nothing is an instance of it, no sh:targetClass
+        classes_shapes = set(label_of.values())
+        for lab in sorted(hshapes):
+            if lab not in classes_shapes and hshapes[lab] and lab.rsplit("/", 1)[-1] in {it["label"].strip("<>").split(":")[-1].rsplit("/", 1)[-1] for it in sm["items"]}:
+                viol.append("sh:targetClass of the shape-map shape %s is %s, expected none (a label is not a class)" % (lab, hshapes[lab]))
     kn = None
     only_shex = st_ - ht
     only_shacl = ht - st_
